@@ -226,7 +226,7 @@ impl Srv {
 }
 
 const APPS: [&str; 5] = ["live", "app/", "a", "\u{e9}/", "x/y"];
-const KEYS: [&str; 4] = ["key1", "stream key", "k", "\u{fc}"];
+const KEYS: [&str; 8] = ["key1", "stream key", "k", "\u{fc}", "", "abcde", "sixsix", "a-long-stream-key-of-thirty-two-"];
 const SIDS: [u32; 7] = [0, 1, 2, 3, 5, 1000, 0x7FFFFFFF];
 const TXNS: [f64; 5] = [0.0, 1.0, 2.0, 5.0, 4294967296.5];
 
